@@ -665,7 +665,8 @@ func ResumeTamper(args []string) {
 	shards := fs.Int("shards", 1, "shards")
 	stride := fs.Int("stride", 1, "take every n-th bit flip")
 	budget := fs.Duration("budget", 10*time.Minute, "budget")
-	only := fs.String("only", "", "run only the cases whose kind starts with this prefix")
+	only := fs.String("only", "", "run only the cases whose kind starts with one of these comma separated prefixes")
+	requireComplete := fs.Bool("require-complete", false, "C03: prior histories an interrupted transfer can leave behind (untouched, torn highest chunk) must end in success on both sides")
 	fs.Parse(args)
 	installHooks()
 	res := &Result{Extra: map[string]any{}}
@@ -753,6 +754,8 @@ func ResumeTamper(args []string) {
 	// metadata written with another chunk size that happens to give the same number of chunks, non-contiguous bitmap
 	cases = append(cases, tamperCase{Kind: "foreign-chunksize-samecount", Stream: 1, Tail: 1}, tamperCase{Kind: "foreign-chunksize-samecount", Stream: 2, Tail: 0})
 	cases = append(cases, tamperCase{Kind: "untouched", Stream: 1, Tail: 1}, tamperCase{Kind: "untouched", Stream: 2, Tail: 0})
+	// plain interrupted state, verification tail re-sent as duplicates, data streams lagging: the duplicates arrive late
+	cases = append(cases, tamperCase{Kind: "untouched", Stream: 2, Tail: 1, Lag: true}, tamperCase{Kind: "untouched", Stream: 1, Tail: 2, Lag: true}, tamperCase{Kind: "untouched", Stream: 3, Tail: 3, Lag: true})
 	rng := rand.New(rand.NewSource(*seed))
 	t0 := time.Now()
 	kinds, outcomes := map[string]int{}, map[string]int{}
@@ -761,8 +764,11 @@ func ResumeTamper(args []string) {
 	if *only != "" {
 		var sel []tamperCase
 		for _, c := range cases {
-			if strings.HasPrefix(c.Kind, *only) {
-				sel = append(sel, c)
+			for _, pre := range strings.Split(*only, ",") {
+				if strings.HasPrefix(c.Kind, pre) {
+					sel = append(sel, c)
+					break
+				}
 			}
 		}
 		cases = sel
@@ -939,6 +945,11 @@ func ResumeTamper(args []string) {
 			outcomes["identical"]++
 		default:
 			outcomes["failed_loudly"]++
+			legit := c.Kind == "untouched" || c.Kind == "complete-torn-last" || (c.Kind == "torn-chunk" && c.Arg == highest)
+			if *requireComplete && legit {
+				res.AddViolation(map[string]any{"property": "C03", "kind": "resumed_transfer_between_healthy_peers_failed", "history": c.Kind, "lagging_data_streams": c.Lag,
+					"sendErr": trunc(o.SendErr), "recvErr": trunc(o.RecvErr)}, replay)
+			}
 		}
 		if i%53 == 0 {
 			res.AddSample(map[string]any{"case": c, "sendOK": o.SendOK, "recvOK": o.RecvOK, "treeEqual": o.TreeEqual, "recvErr": trunc(o.RecvErr)}, 8)
